@@ -1,0 +1,9 @@
+// Copyright (c) Jim Lambert
+// SPDX-License-Identifier: MIT
+
+//go:build !verif
+
+package gldap
+
+// verifGate is a no-op unless built with the "verif" tag (see verif_on.go).
+func verifGate(string, ...int) {}
